@@ -51,6 +51,17 @@ SHADOW = [
     ('out int x = 0; macro m(match x) { x; } parser { m("ab"); x = 1; "c"; }', []),
 ]
 
+# sources the grammar can read in more than one way (a blank inside a regex is a literal and also ignorable white space, ...):
+# which reading wins must not depend on any iteration order either
+GRAMMAR_AMBIG = [
+    ('parser { /GET [a-z]+ HTTP/; "!"; }', []),
+    ('out str[8] s; parser { s += /a b  c/; ";"; }', []),
+    ('parser { /a +b/; /[a b]+c/; }', []),
+    ('parser { / a| b /; "x"; }', []),
+    ('parser { case { /a b/ -> {} / c/ -> {} } "z"; }', []),
+    ('out int n = 0; parser { "a"; n = [1 - -1 + - 2]; if n == 2 && n != 3 || n < 1 { "b"; } else { "c"; } }', []),
+]
+
 FLIP = ["-fstrict-done-token-generation", "-feof-support", "-fyield-support", "-fallocate-str-space-dynamic", "-fstrings-as-u8", "-finclude-user-ptr",
         "-fuse-packed-enums", "-fzero-len-input-support"]
 
@@ -133,6 +144,8 @@ def programs(tier, seed):
         out.append(dict(label="HW#%d" % j, src=U.source(tuple(p)), argv=U.needs_flags(tuple(p))))
     for j, (src, argv) in enumerate(SHADOW):
         out.append(dict(label="SHADOW#%d" % j, src=src + "\n", argv=argv))
+    for j, (src, argv) in enumerate(GRAMMAR_AMBIG):
+        out.append(dict(label="SHADOW-GRAMMAR#%d" % j, src=src + "\n", argv=argv))
     alt = ["/(ab|ac|ad)+e|(a|b)c?/", "/[a-c][^a]c|x(y|z)*/", "/(a|b|c)(a|b|c)(a|b)/"]
     for a in alt:
         out.append(dict(label="ALT", src="hook h; parser { %s; h(); \";\"; }\n" % a, argv=[]))
